@@ -25,10 +25,11 @@ static struct krec I_KEY[1];
 static struct mrec ADD_REC; /* the record the writer adds */
 static struct krec ADD_KEY;
 
-enum wop { W_ADD, W_RM_PULLUP, W_SRC, W_KADD, W_KRM, W_RM_LAST6, W_ADD6, W__N };
+enum wop { W_ADD, W_RM_PULLUP, W_SRC, W_KADD, W_KRM, W_RM_LAST6, W_ADD6, W_KSRC, W__N };
 static const char *WOP_NAME[W__N] = {"pfx_table_add(10.64.0.0/10 as4)", "pfx_table_remove(10.0.0.0/8 as1: root, pull-up)", "pfx_table_src_remove(srcB)",
 				     "spki_table_add_entry(K1)", "spki_table_remove_entry(K0)",
-				     "pfx_table_remove(2001:db8::/32 as5: last IPv6 record, empties the tree)", "pfx_table_add(2001:db8::/32 as5)"};
+				     "pfx_table_remove(2001:db8::/32 as5: last IPv6 record, empties the tree)", "pfx_table_add(2001:db8::/32 as5)",
+				     "spki_table_src_remove(srcA)"};
 enum rop { R_VAL, R_VALR, R_EACH4, R_EACH6, R_GETALL, R_SKI, R_VAL6, R__N };
 static const char *ROP_NAME[R__N] = {"pfx_table_validate(as1,10.200.0.0/16)", "pfx_table_validate_r(as3,10.200.0.0/16)", "for_each_ipv4", "for_each_ipv6",
 				     "spki_table_get_all(as100,ski0)", "spki_table_search_by_ski(ski1)", "pfx_table_validate(as5,2001:db8::/32)"};
@@ -144,6 +145,10 @@ static void c16_build_abs(void)
 			k_remove(&cur.key, &I_KEY[0]);
 			ABS[NABS++] = cur;
 			break;
+		case W_KSRC:
+			k_src_remove(&cur.key, 0);
+			ABS[NABS++] = cur;
+			break;
 		}
 	}
 }
@@ -189,6 +194,9 @@ static void writer_body(int id)
 		case W_KRM:
 			k_to_spki(&I_KEY[0], &sr);
 			spki_table_remove_entry(&SPKI, &sr);
+			break;
+		case W_KSRC:
+			spki_table_src_remove(&SPKI, &M_SOCKS[0]);
 			break;
 		}
 	}
